@@ -37,7 +37,8 @@ add("C10", "model_checking", "RetryGraph.tla models the frontier walk of setupRe
 add("C06", "model_checking", "History.tla specifies the store at call granularity with the three queries as operators; TLC checks frame conditions, rename-carries-all and retention-only-old as action properties of the design (MCHistory); "
     "operation sequences generated by TLC simulation of that model and by a seeded generator are executed on the real jsondb with 8 awkward name tables and close start stamps, and after EVERY operation every query answer for every DAG is compared by TLC with the model (HistoryTrace); "
     "FileCache.tla models the status cache at the grain of LoadLatest's own steps under overlapping queries, appends and manual updates (TLC: no query returns an older status than the file held when it looked, none panics); "
-    "its simulated behaviours and counter-examples are replayed through the verif gates of the real filecache under the real jsondb and every gate passage and returned status is validated by TLC (FileCacheTrace)",
+    "its simulated behaviours and counter-examples are replayed through the verif gates of the real filecache under the real jsondb and every gate passage and returned status is validated by TLC (FileCacheTrace); "
+    "HistoryConc.tla models a query (listing, then one read per file) against the recorder's compaction and the next run's opening; its behaviours are replayed through gates in jsondb and the answer must be one the store would have given at some moment while the query ran (HistoryConcTrace)",
     REC_NOTE + "; status payloads are opaque ids", "TLA+ model of the history store (TLC) + TLC-generated and random operation sequences replayed on the real jsondb, every answer validated against the model by TLC", "hist", "5/C06")
 
 add("C07", "fault_enumeration", "a child process executing history operations on the real jsondb is SIGKILLed by a ptrace supervisor at the entry of every mutating system call under the data directory and at three torn prefixes of every write; "
@@ -110,7 +111,7 @@ def main():
              "kind_free_text": "request renderer around the real middleware chain (httptest); records judged by TLC"},
             {"name": "hist", "path": "harness/rig/hist.go + spec/History.tla + spec/MCHistory.tla + spec/HistoryTrace.tla", "serves_properties": ["C06"],
              "kind_free_text": "operation-sequence driver around the real jsondb store; trace validation by TLC"},
-            {"name": "cache", "path": "harness/rig/cache.go + spec/FileCache.tla + spec/MCFileCache.tla + spec/FileCacheTrace.tla", "serves_properties": ["C06"],
+            {"name": "cache", "path": "harness/rig/cache.go + spec/FileCache.tla + spec/MCFileCache.tla + spec/FileCacheTrace.tla + spec/HistoryConc.tla + spec/MCHistoryConc.tla + spec/HistoryConcTrace.tla", "serves_properties": ["C06"],
              "kind_free_text": "gate-driven schedule replay of overlapping queries and writes on the real filecache + jsondb; trace validation by TLC"},
             {"name": "crash", "path": "harness/rig/sup.go + harness/rig/crash.go + spec/HistoryFS.tla + spec/CrashObserve.tla", "serves_properties": ["C07"],
              "kind_free_text": "ptrace supervisor (kill at k-th system call, torn writes) around a history driver; records judged by TLC"},
